@@ -1,5 +1,6 @@
 import CasbinModel.Lemmas.Utf8
 import CasbinModel.Lemmas.Segments
+import CasbinModel.Lemmas.Captures
 /-!
 # C15 — Built-in path matchers implement their documented patterns
 
@@ -17,10 +18,17 @@ segment-wise meaning written without regular expressions (`Lemmas/Segments.lean`
 lemmas, compilation lemma, matching lemma).  `keyMatch3` and `keyMatch5` follow the same way
 (`keyMatch3_spec`, `keyMatch5_spec`).
 
-For `keyMatch4` and the getters `keyGet2/3` (captures) the model is the same pipeline; they
-are validated against the `regex` crate and against the independent segment-wise matcher
-by the correspondence run (all patterns of the grammar up to a size bound, random beyond)
-(*partial*).
+**keyMatch4 and keyGet3** (`keyMatch4_spec`, `keyGet3_spec`, `Lemmas/Captures.lean`): the pipeline with the
+capturing group computes `segCaps`, the text each named segment stands for (a named segment can only ever
+stand for the whole `/`-free run, so greedy and lazy groups capture the same text; `*` takes as much as it
+can); keyMatch4 is "matches segment-wise and equal names stand for equal text" (`consistent_iff`), keyGet3
+returns the text of the first segment with the given name.
+
+`keyGet2` is the same statement in the colon syntax (`keyGet2_spec`, names non-empty).
+
+What the theorems do not cover is validated against the `regex` crate and the independent segment-wise matcher
+by the correspondence run (all patterns of the grammar up to a size bound, random beyond): patterns outside the
+grammar (literal text with regex metacharacters, empty names for the getters, `}` inside a name).
 -/
 namespace Casbin.C15
 open Casbin
@@ -163,6 +171,191 @@ theorem keyMatch5_spec (ps : List PSeg) (hok : ∀ p ∈ ps, p.Ok) (hlz : ∀ p 
   simp only
   rw [repl_render3 ps hok, rbl_renderStar3 ps hok hlz _ (by omega), compile_reBody ps hok _ (by omega)]
   simp [matchItems_itemsOf]
+
+/-! ### Captures: keyMatch4 and keyGet3 -/
+
+/-- what `consistent` says: two entries with the same name carry the same text -/
+theorem consistent_iff (l : List (Str × Str)) :
+    consistent l = true ↔ ∀ p ∈ l, ∀ q ∈ l, p.1 = q.1 → p.2 = q.2 := by
+  induction l with
+  | nil => simp [consistent]
+  | cons x rest ih =>
+    obtain ⟨n, v⟩ := x
+    simp only [consistent, Bool.and_eq_true, List.all_eq_true, Bool.or_eq_true, decide_eq_true_eq, beq_iff_eq, ih]
+    constructor
+    · rintro ⟨h1, h2⟩ p hp q hq hpq
+      rcases List.mem_cons.mp hp with rfl | hp' <;> rcases List.mem_cons.mp hq with rfl | hq'
+      · rfl
+      · rcases h1 q hq' with h | h
+        · exact absurd hpq.symm (by simpa using h)
+        · exact h.symm
+      · rcases h1 p hp' with h | h
+        · exact absurd hpq (by simpa using h)
+        · exact h
+      · exact h2 p hp' q hq' hpq
+    · intro h
+      refine ⟨?_, fun p hp q hq => h p (by simp [hp]) q (by simp [hq])⟩
+      intro q hq
+      by_cases hn : q.1 = n
+      · right; exact h q (by simp [hq]) (n, v) (by simp) hn
+      · left; simpa using hn
+
+/-- **keyMatch4 = segment-wise matching in which equal names stand for equal text**, for every pattern of the
+grammar (names non-empty and without `}`) and every key -/
+theorem keyMatch4_spec (ps : List PSeg) (hok : ∀ p ∈ ps, p.Ok) (hlz : ∀ p ∈ ps, p.OkLazy) (k : Str) :
+    keyMatch4 k (render3 ps) =
+      some (match segCaps ps k with
+            | none => false
+            | some caps => consistent ((namesOf ps).zip caps)) := by
+  unfold keyMatch4 compileRe
+  simp only
+  rw [repl_render3 ps hok]
+  obtain ⟨h1, h2⟩ := rbl_renderStar3_gen capRe ps hok hlz ((renderStar3 ps).length + 1) (by omega)
+  rw [h1, h2, compile_reBodyCap ps hok _ (by omega)]
+  simp only
+  rw [matchItems_itemsOfC]
+  cases segCaps ps k <;> rfl
+
+/-- … in particular it can only hold for a key that matches segment-wise (keyMatch3's meaning), and when no
+name is repeated it is exactly that -/
+theorem keyMatch4_le_segMatch (ps : List PSeg) (hok : ∀ p ∈ ps, p.Ok) (hlz : ∀ p ∈ ps, p.OkLazy) (k : Str)
+    (h : keyMatch4 k (render3 ps) = some true) : segMatch ps k = true := by
+  rw [keyMatch4_spec ps hok hlz k] at h
+  rw [← segCaps_isSome]
+  cases hs : segCaps ps k with
+  | none => simp [hs] at h
+  | some caps => rfl
+
+theorem escapeBrace_id (s : Str) (h : ∀ c ∈ s, c ≠ '{') : escapeBrace s = s := by
+  induction s with
+  | nil => rfl
+  | cons c t ih =>
+    have hc : c ≠ '{' := h c (by simp)
+    have := ih (fun x hx => h x (by simp [hx]))
+    unfold escapeBrace
+    split
+    · rename_i heq; simp only [List.cons.injEq] at heq; exact absurd heq.1 hc
+    · rename_i heq; simp only [List.cons.injEq] at heq; obtain ⟨rfl, rfl⟩ := heq; rw [this]
+    · rename_i heq; cases heq
+
+theorem reBodyR_no_brace (ps : List PSeg) (hok : ∀ p ∈ ps, p.Ok) : ∀ c ∈ reBodyR capLazyRe ps, c ≠ '{' := by
+  induction ps with
+  | nil => intro c hc; cases hc
+  | cons p ps ih =>
+    have ih' := ih (fun q hq => hok q (by simp [hq]))
+    have hp := hok p (by simp)
+    intro c hc
+    cases p with
+    | lit s =>
+      simp only [reBodyR, List.mem_cons, List.mem_append] at hc
+      rcases hc with (rfl | hc) | hc
+      · decide
+      · exact litChar_ne_brace (hp c hc)
+      · exact ih' c hc
+    | named n =>
+      simp only [reBodyR, List.mem_cons, List.mem_append] at hc
+      rcases hc with (rfl | hc) | hc
+      · decide
+      · rw [capLazyRe_eq] at hc
+        simp only [List.mem_cons, List.mem_nil_iff, or_false] at hc
+        rcases hc with rfl | rfl | rfl | rfl | rfl | rfl | rfl | rfl <;> decide
+      · exact ih' c hc
+    | rest =>
+      simp only [reBodyR, List.mem_cons] at hc
+      rcases hc with rfl | rfl | rfl | hc
+      · decide
+      · decide
+      · decide
+      · exact ih' c hc
+
+/-- the pattern rewritten with the lazy capturing group compiles to the lazy capturing items -/
+theorem compile_reBodyCapLazy (ps : List PSeg) (hok : ∀ p ∈ ps, p.Ok) :
+    ∀ f, f > (reBodyR capLazyRe ps).length → toItems f (reBodyR capLazyRe ps) = some (itemsOfC true ps) := by
+  induction ps with
+  | nil =>
+    intro f hf
+    cases f with
+    | zero => simp [reBodyR] at hf
+    | succ f => exact toItems_nil f
+  | cons p ps ih =>
+    have ih' := ih (fun q hq => hok q (by simp [hq]))
+    have hp := hok p (by simp)
+    cases p with
+    | lit s =>
+      simp only [reBodyR, itemsOfC]
+      exact compile_ch '/' (by decide) _ _ (compile_lit s hp _ _ ih' (reBodyR_safeHead _ ps)) (safeHead_lit s hp _ (reBodyR_safeHead _ ps))
+    | named n =>
+      simp only [reBodyR, itemsOfC]
+      refine compile_ch '/' (by decide) _ _ (compile_capLazy _ _ ih') ?_
+      rw [capLazyRe_eq]
+      exact Or.inr ⟨'(', _, rfl, by decide⟩
+    | rest =>
+      simp only [reBodyR, itemsOfC]
+      exact compile_ch '/' (by decide) _ _ (compile_dotStar _ _ ih') (Or.inr ⟨'.', _, rfl, by decide⟩)
+
+/-- **keyGet3 = the text of the first segment named `v`** (empty when the key does not match segment-wise or no
+segment has that name) -/
+theorem keyGet3_spec (ps : List PSeg) (hok : ∀ p ∈ ps, p.Ok) (hlz : ∀ p ∈ ps, p.OkLazy) (k v : Str) :
+    keyGet3 k (render3 ps) v =
+      some (match segCaps ps k with
+            | none => []
+            | some caps =>
+              (match (((namesOf ps).zipIdx.filter (fun (n, _) => n == v))).head? with
+               | some (_, i) => caps.getD i []
+               | none => [])) := by
+  unfold keyGet3 compileRe
+  simp only
+  rw [repl_render3 ps hok]
+  obtain ⟨h1, h2⟩ := rbl_renderStar3_gen capLazyRe ps hok hlz ((renderStar3 ps).length + 1) (by omega)
+  rw [h1, h2, escapeBrace_id _ (reBodyR_no_brace ps hok), compile_reBodyCapLazy ps hok _ (by omega)]
+  simp only
+  rw [matchItems_itemsOfC]
+  cases segCaps ps k with
+  | none => rfl
+  | some caps =>
+    simp only
+    cases (((namesOf ps).zipIdx.filter (fun (n, _) => n == v))).head? with
+    | none => rfl
+    | some x => rfl
+
+/-- **keyGet2 = the text of the first segment named `v`** in the colon syntax (names non-empty, as the getter's
+`:[^/]+` requires) -/
+theorem keyGet2_spec (ps : List PSeg) (hok : ∀ p ∈ ps, p.Ok) (hne : ∀ p ∈ ps, p.NameNonEmpty) (k v : Str) :
+    keyGet2 k (render2 ps) v =
+      some (match segCaps ps k with
+            | none => []
+            | some caps =>
+              (match (((namesOf ps).zipIdx.filter (fun (n, _) => n == v))).head? with
+               | some (_, i) => caps.getD i []
+               | none => [])) := by
+  unfold keyGet2 compileRe
+  simp only
+  rw [repl_render2 ps hok]
+  obtain ⟨h1, h2⟩ := rc_renderStar2_gen capRe ps hok hne ((renderStar2 ps).length + 1) (by omega)
+  rw [h1, h2, compile_reBodyCap ps hok _ (by omega)]
+  simp only
+  rw [matchItems_itemsOfC]
+  cases segCaps ps k with
+  | none => rfl
+  | some caps =>
+    simp only
+    cases (((namesOf ps).zipIdx.filter (fun (n, _) => n == v))).head? with
+    | none => rfl
+    | some x => rfl
+
+/-- the captures on concrete keys (tests of the specification itself) -/
+example : segCaps [.lit "p".toList, .named "id".toList, .lit "c".toList, .named "id".toList] "/p/1/c/2".toList =
+      some ["1".toList, "2".toList] ∧
+    segCaps [.named "a".toList, .rest, .named "b".toList] "/x/y/z/w".toList = some ["x".toList, "w".toList] ∧
+    segCaps [.named "a".toList] "/x/y".toList = none := by decide +kernel
+/-- non-vacuity of the lazy-name premise -/
+example : (∀ p ∈ [PSeg.lit "p".toList, .named "id".toList, .named "b".toList], p.OkLazy) := by
+  intro p hp
+  simp only [List.mem_cons, List.mem_nil_iff, or_false] at hp
+  rcases hp with rfl | rfl | rfl
+  · trivial
+  · exact ⟨by decide, by intro c hc; revert c; decide +kernel⟩
+  · exact ⟨by decide, by intro c hc; revert c; decide +kernel⟩
 
 /-- the segment-wise meaning on concrete keys (tests of the specification itself) -/
 example : segMatch [.lit "a".toList, .named "id".toList] "/a/7".toList = true ∧
